@@ -527,7 +527,7 @@ def run(ctx):
         for dbl in ("none", "all"):
             progs.append(("enum", p, "line-per-load", dbl, "plain"))
     dist["enumerated_programs"] = len(progs) - dist["sweep_programs"]
-    for _ in range(ctx.n(1100, 40000)):
+    for _ in range(ctx.n(1000, 40000)):
         lay = rng.choice(LAYOUTS)
         # wave 8: in the writer's layout a third of the programs in the writer's doubling - preamble and mode codes doubled,
         # the codes inside the rows (special / extended characters, mid-row codes, backspace) single: emit_load_wm (507)
@@ -550,6 +550,18 @@ def run(ctx):
             dist["writer_mixed_doubling"]["loads"] += 1
             dist["writer_mixed_doubling"]["loads_inside_dd_hypothesis"] += okl == 1
         inl[i] = [ws for _, ws in wm[i]]
+    # audit (wave 7): the doubled Coq emitters - the form the writer theorems are used in (wseg_line true) - cross-checked on
+    # EVERY all-doubled program against the Python doubling of the single-coded emission that produces the stream
+    dbl_idx = [i for i, pr in enumerate(progs) if pr[3] == "all"]
+    dbl501 = oracle_batch([(501, [True, progs[i][1][1]]) for i in dbl_idx])
+    dbl506 = dict(zip([i for i in dbl_idx if i in inl], oracle_batch([(506, [True, progs[i][1][1]]) for i in dbl_idx if i in inl])))
+    dist["doubled_emitter_cross_checked_programs"] = len(dbl_idx)
+    for i, e2 in zip(dbl_idx, dbl501):
+        want = [double_codes(list(ws), "all", rng) for ws in emitted[i][2]]
+        if [list(ws) for ws in e2[2]] != want or (i in dbl506 and [list(ws) for ws in dbl506[i]] !=
+                                                  [double_codes(list(ws), "all", rng) for ws in inl[i]]):
+            res["disagreements"].append({"which": "Coq doubled emitter (emit_load true / emit_load_w true) vs the Python doubling "
+                                                  "of the single-coded emission", "program": progs[i][1]})
     cases = []
     for i, ((kind, p, layout, dbl, text), e) in enumerate(zip(progs, emitted)):
         if i in inl and i not in wm and [list(ws[:-1]) + [W_EDM, W_EOC] for ws in e[2]] != [list(ws) for ws in inl[i]]:
@@ -646,7 +658,7 @@ def run(ctx):
         tc = g.timecode(90, False)
         return g.doc([(g.timecode(30, False), first), (tc[:8] + "." + tc[9:], second), (g.timecode(200, False), [g.EDM])])
     pool = [c for c in cases if c[3] and c[0] in ("random", "sweep")]
-    reuse = [rng.choice(pool) for _ in range(ctx.n(160, 3000))] if pool else []
+    reuse = [rng.choice(pool) for _ in range(ctx.n(120, 3000))] if pool else []
     dist["reader_reused_after_a_raising_read"] = {"long-row": 0, "bad-timecode": 0, "earlier_read_ended": {}}
     rcases = []
     for c in reuse:
@@ -673,7 +685,7 @@ def run(ctx):
                 "input": c[1], "program": c[1], "stream": c[4], "history": hist, "difference": d,
                 "impl_obs": show(o2), "fresh_obs": show(o1)})
     # D: soups that stay in pop-on mode - decoder model vs implementation at the level the property fixes
-    soups = [sccsoup.soup(rng, popon_only=True) for _ in range(ctx.n(1000, 40000))]
+    soups = [sccsoup.soup(rng, popon_only=True) for _ in range(ctx.n(900, 40000))]
     # loads that never address a row (text right after ENM RCL / RCL): the position they get depends on whether the
     # tracker was reset - outside the statement, compared with the model only
     for row in (1, 7, 14, 15):
